@@ -134,6 +134,11 @@ def run(model: Model, rep: Report) -> None:
     isrc = {unparse(n.targets[0]): unparse(n.value) for n in walk_no_nested(init.node) if isinstance(n, ast.Assign)}
     okb = isrc.get("self.mediabox", "").replace(" ", "") == "self._parse_mediabox(self.attrs.get('MediaBox'))" and isrc.get("self.cropbox", "").replace(" ", "") == "self._parse_cropbox(self.attrs.get('CropBox'),self.mediabox)"
     r5.check(okb, site(init), init.qualname, "the page takes MediaBox/CropBox from its (merged) attributes, CropBox defaulting to the parsed MediaBox", why=f"{isrc.get('self.mediabox')}; {isrc.get('self.cropbox')}")
+    # ---------------------------------------------------------------- R6
+    r6 = rep.rule("C04-R6", "BIND", "parse_rect: four numbers in the order given (x0, y0, x1, y1), each converted with float; anything else is a PDFValueError", 1)
+    pr = model.func("pdfminer.utils.parse_rect")
+    spr = "".join(unparse(pr.node).split()).replace("(", "").replace(")", "")
+    r6.check("x0,y0,x1,y1=o" in spr and "returnfloatx0,floaty0,floatx1,floaty1" in spr and "exceptValueError,TypeError:" in spr and "raisePDFValueError'Couldnotparserectangle'" in spr, site(pr), pr.qualname, "(x0, y0, x1, y1) = o; floats in that order", why="parse_rect changed")
 
 
 def _objid_name(dfs: FuncInfo) -> str:
